@@ -1,7 +1,7 @@
 (* HostileFacts.v - C14: for ARBITRARY module data of every modelled kind (any FDE list with any
    rows, any PE tables, chains, text view), any registers and any stack, one unwind_frame call never
    panics in framehop's own code and never hangs. *)
-From FH Require Import Consts Word X86 A64 DwarfRow Cfi Unwinder DwarfCb X86Dwarf A64Dwarf Pe X86Unw A64Unw
+From FH Require Import Consts Word X86 A64 DwarfRow Cfi Unwinder DwarfCb X86Dwarf A64Dwarf Pe Macho MachoCb X86Unw A64Unw
   WordFacts X86Exec A64Exec RegOrderFacts ModFacts X86Walk PeFacts.
 From Coq Require Import Lia ZifyBool ZifyN ZifyNat.
 Open Scope N_scope.
@@ -13,6 +13,15 @@ Arguments N.ltb : simpl never.
 Arguments N.leb : simpl never.
 Arguments encode : simpl never.
 Arguments decode : simpl never.
+
+Ltac inner H :=
+  match type of H with
+  | context [match ?x with _ => _ end] =>
+    lazymatch x with
+    | context [match _ with _ => _ end] => fail
+    | _ => destruct x
+    end
+  end.
 
 Definition safe {A} (r : res A) : Prop :=
   match r with Panic s => site_is_own s = false | Hang => False | _ => True end.
@@ -74,6 +83,25 @@ Proof.
     destruct (index_lookup true l rel); cbn [fst]; [|apply err_safe].
     destruct (add64p S_dwarf_svma_add bs rel); cbn [fst]; try apply uncovered_safe. apply W.
 Qed.
+(* the Mach-O arm: compact-unwind rules, errors, or a DWARF row *)
+Variable arch_unwind : mfunction -> bool -> N -> option (list N) -> cui_result R.
+Variables stub_rule start_rule : R.
+Variable helper_rule : N -> R.
+Hypothesis cui_safe : forall d rel first r,
+  macho_cui R arch_unwind stub_rule start_rule helper_rule d rel first = CuiRule r -> safeR (CbRule r).
+
+Lemma cb_macho_safe d bs first rel rg m :
+  safeR (fst (cb_macho R G row_step uncovered arch_unwind stub_rule start_rule helper_rule d bs first rel rg m)).
+Proof.
+  unfold cb_macho.
+  destruct (macho_cui R arch_unwind stub_rule start_rule helper_rule d rel first) as [r|off|] eqn:E; cbn [fst].
+  - eapply cui_safe. exact E.
+  - destruct (m_eh d) as [l|]; [|apply err_safe].
+    destruct (eh_find l off) as [f|]; [|apply err_safe].
+    destruct (add64p S_dwarf_svma_add bs rel); cbn [fst]; try apply uncovered_safe.
+    unfold with_fde. destruct (row_for_address f a); [apply row_step_safe | apply uncovered_safe].
+  - apply err_safe.
+Qed.
 End DwarfSafe.
 
 (* ---------- PE ---------- *)
@@ -97,15 +125,6 @@ Proof.
 Qed.
 
 (* the epilog parser yields lea rsp,[fp+x] only for functions that declare a frame register *)
-Ltac inner H :=
-  match type of H with
-  | context [match ?x with _ => _ end] =>
-    lazymatch x with
-    | context [match _ with _ => _ end] => fail
-    | _ => destruct x
-    end
-  end.
-
 Lemma eparse_fp ip fpreg b n rest : eparse ip fpreg b = PInsn (EAddSPFromFP n) rest -> fpreg <> None.
 Proof.
   unfold eparse. destruct ip as [|b0 t0]; [discriminate|].
@@ -220,12 +239,68 @@ Proof.
   destruct (fst (pe_step_raw true pe address first rg m)); cbn [pe_restore]; auto.
 Qed.
 
+(* the Mach-O producers never emit a pop-registers rule *)
+Definition not_pop (r : rule) : Prop := match r with OffsetSpAndPopRegisters _ _ _ => False | _ => True end.
+Lemma not_pop_ok r : not_pop r -> rule_ok r.
+Proof. destruct r; cbn; auto. contradiction. Qed.
+
+Lemma pro_walk_not_pop : forall fuel rb cnt r, pro_walk_x86 fuel rb cnt = Some r -> not_pop r.
+Proof.
+  induction fuel as [|f IH]; intros rb cnt r; cbn [pro_walk_x86]; [discriminate|].
+  intros H.
+  repeat match type of H with
+         | match ?x with _ => _ end = _ => destruct x; try discriminate
+         | (if ?x then _ else _) = _ => destruct x; try discriminate
+         end;
+  try (inversion H; subst; exact I); try (eapply IH; exact H).
+Qed.
+
+Lemma analysis_x86_not_pop text pc r : analysis_x86 text pc = Some r -> not_pop r.
+Proof.
+  unfold analysis_x86, prologue_x86, epilogue_x86. intros H.
+  destruct (is_next_expected_in_prologue (skipn pc text)).
+  - destruct (pro_walk_x86 _ _ 0) as [r'|] eqn:E.
+    + inversion H; subst. eapply pro_walk_not_pop. exact E.
+    + repeat (inner H; try discriminate); inversion H; subst; exact I.
+  - repeat (inner H; try discriminate); inversion H; subst; exact I.
+Qed.
+
+Lemma x86_macho_not_pop f first off fb r : x86_macho_unwind f first off fb = CuiRule r -> not_pop r.
+Proof.
+  unfold x86_macho_unwind. intros H.
+  destruct first.
+  - destruct fb as [b|].
+    + destruct (analysis_x86 b (N.to_nat off)) as [r'|] eqn:E.
+      * inversion H; subst. eapply analysis_x86_not_pop. exact E.
+      * unfold frameless_rule_x86 in H.
+        repeat (inner H; try discriminate); inversion H; subst; exact I.
+    + unfold frameless_rule_x86 in H.
+      repeat (inner H; try discriminate); inversion H; subst; exact I.
+  - unfold frameless_rule_x86 in H.
+    repeat (inner H; try discriminate); inversion H; subst; exact I.
+Qed.
+
+Lemma macho_cui_x86_ok d rel first r :
+  macho_cui rule x86_macho_unwind JustReturn JustReturn x86_stub_helper_rule d rel first = CuiRule r -> rule_ok r.
+Proof.
+  unfold macho_cui. intros H. apply not_pop_ok.
+  destruct (in_range (m_stubs d) rel); [destruct first; [inversion H; exact I | discriminate]|].
+  destruct (in_range (m_helper d) rel).
+  { destruct first; [|discriminate]. inversion H. unfold x86_stub_helper_rule.
+    repeat match goal with |- context [if ?x then _ else _] => destruct x end; exact I. }
+  destruct (macho_lookup d rel) as [f|]; [|destruct first; [inversion H; exact I | discriminate]].
+  destruct (first && (rel =? fn_start f)); [inversion H; exact I|].
+  eapply x86_macho_not_pop. exact H.
+Qed.
+
 Lemma cb_x86_safe md first rel rg m : cb_safe (fst (cb_x86 md first rel rg m)).
 Proof.
   unfold cb_x86. destruct (mdat md).
   - exact I.
   - apply (cb_dwarf_safe rule regs cb_safe); [apply row_step_x86_safe | exact I | intros; exact I].
   - apply pe_step_safe.
+  - apply (cb_macho_safe rule regs cb_safe); [apply row_step_x86_safe | exact I | intros; exact I |].
+    intros d0 rel0 first0 r H. cbn. eapply macho_cui_x86_ok. exact H.
 Qed.
 
 Lemma find_module_ok {D} (l : list (module D)) a : exists r, find_module D l a = Ok r.
@@ -315,6 +390,7 @@ Proof.
   - exact I.
   - apply (cb_dwarf_safe arule aregs cb_safe_a); [apply row_step_a64_safe | exact I | intros; exact I].
   - exact I.
+  - apply (cb_macho_safe arule aregs cb_safe_a); [apply row_step_a64_safe | exact I | intros; exact I | intros; exact I].
 Qed.
 
 Lemma aexec_safe r first rg m : safe (fst (aexec r first rg m)).
@@ -381,6 +457,7 @@ Proof.
   - exact I.
   - apply (cb_dwarf_safe arule aregs cb_ret_a); [apply row_step_a64_ret | exact I | intros; exact I].
   - exact I.
+  - apply (cb_macho_safe arule aregs cb_ret_a); [apply row_step_a64_ret | exact I | intros; exact I | intros; exact I].
 Qed.
 
 Theorem unwind_frame_a_returns u c a rg m :
